@@ -127,3 +127,51 @@ Definition candidates (r : reg) (k : bytes) (old new : option rect) : list hook 
    end) ++
   (match old with Some r1 => filter (keyed k) (search (hookTree r) r1) | None => [] end) ++
   (match new with Some r2 => filter (keyed k) (search (hookTree r) r2) | None => [] end).
+
+(* ---- the three delivery paths (aof.go queueHooks / sortMsgs, pubsub Publish, hooks.go Hook.proc,
+        live.go processLives / goLive) ---- *)
+
+(* a notification tagged with the "hook" field it carries *)
+Definition tagged : Type := (bytes * fmsg)%type.
+
+(* sortMsgs' less function: by msgDetectCode, then by hook name *)
+Definition tless (a b : tagged) : bool :=
+  Nat.ltb (weight (snd a)) (weight (snd b)) ||
+  (Nat.eqb (weight (snd a)) (weight (snd b)) && bytes_ltb (fst a) (fst b)).
+(* sort.SliceStable: modelled by a stable insertion sort with that less function *)
+Fixpoint tinsert (x : tagged) (l : list tagged) : list tagged :=
+  match l with
+  | [] => [x]
+  | y :: t => if tless y x then y :: tinsert x t else x :: l
+  end.
+Definition sort_msgs (l : list tagged) : list tagged := fold_right tinsert [] l.
+
+(* FenceMatch(hook.Name, hook.ScanWriter, hook.Fence, hook.Metas, d) for one candidate; cf / af give
+   the abstract case and the COMMANDS verdict of each hook for the write at hand *)
+Definition hook_msgs (cf : hook -> fcase) (af : hook -> bool) (h : hook) : list tagged :=
+  match fence_match (af h) (h_detect h) (cf h) with
+  | FOk l => map (fun m => (h_name h, m)) l
+  | FFuel => []
+  end.
+
+(* queueHooks: cl is the candidate set in the order the Go map happens to be iterated; channel
+   messages and webhook messages are collected and sorted separately *)
+Definition queue_hooks (cl : list hook) (cf : hook -> fcase) (af : hook -> bool) : list tagged * list tagged :=
+  (sort_msgs (flat_map (hook_msgs cf af) (filter h_chan cl)),
+   sort_msgs (flat_map (hook_msgs cf af) (filter (fun h => negb (h_chan h)) cl))).
+
+Definition tagged_for (n : bytes) (l : list tagged) : list fmsg :=
+  map snd (filter (fun t => bytes_eqb (fst t) n) l).
+
+(* a channel's subscribers receive the published messages whose channel is the hook name, in
+   publication order; a webhook's manager (Hook.proc) sends the queued messages whose "hook"
+   field is its name, in queue order *)
+Definition channel_delivery (cl : list hook) cf af (n : bytes) : list fmsg := tagged_for n (fst (queue_hooks cl cf af)).
+Definition webhook_delivery (cl : list hook) cf af (n : bytes) : list fmsg := tagged_for n (snd (queue_hooks cl cf af)).
+
+(* a live fence connection: processLives hands every write of its key to the connection, which calls
+   FenceMatch("", sw, fence, nil, details) - no candidate selection, no sorting *)
+Definition live_delivery (live_key write_key : bytes) (acc : bool) (D : dset) (x : fcase) : list fmsg :=
+  if bytes_eqb live_key write_key
+  then match fence_match acc D x with FOk l => l | FFuel => [] end
+  else [].
